@@ -373,6 +373,102 @@ def judgeMulti (inp obs : Json) : Except String Verdict := do
          nontrivial := kinds.any (· != "none"),
          model := Json.mkObj [("handled", Json.arr (e1.handled.map Json.str).toArray)] }
 
+/-! ### faults during the registration handshake -/
+
+def judgeHandshake (inp obs : Json) : Except String Verdict := do
+  let ev ← getNat inp "ev"
+  let pos ← getNat inp "pos"
+  let n := if getNatD inp "n" == 0 then 3 else getNatD inp "n"
+  let f ← getObj inp "fault"
+  let kind ← getStr f "kind"
+  let dir := getStrD f "dir"
+  let off := getNatD f "off"
+  let T := getNatD inp "timeout_ms"
+  let slack := getNatD inp "slack_ms"
+  let fail := getStrD obs "fail"
+  let tag := if dir == "" then kind else kind ++ ":" ++ dir
+  let cov0 := ["handshake", "fault:" ++ tag, s!"pos:{pos}", s!"ev:{ev}"]
+  let where_ := s!"handshake fault {tag}" ++ (if dir == "" then "" else s!" at offset {off}") ++ s!", plugin {pname pos} of {n}, event {ev}"
+  if fail == "crashed" || fail == "blocked" then
+    return { agree := false, spec := false, sig := s!"C07:{fail}:{tag}", cover := fail :: cov0, nontrivial := true,
+             why := s!"{where_}: the runtime process {fail}: {getStrD obs "panic"}" }
+  if fail != "" then
+    return { agree := false, spec := true, why := s!"harness: {fail}", cover := "harness-fail" :: cov0 }
+  let warm ← decRObs (← getObj obs "warm")
+  let flt ← decRObs (← getObj obs "fault")
+  let nxt ← decRObs (← getObj obs "next")
+  let fired := getBoolD obs "fired"
+  let activated := getBoolD obs "activated"
+  let lateErr := getStrD obs "late_err"
+  let sp := specs n
+  let late : PSpec := { id := 4, idx := "50", name := "e", mask := 0, veto := 0, clash := 0, raw := false }
+  let spAll := sp ++ [late]
+  let healthy := sp.filter (·.id != pos)
+  let me := pname pos
+  let names (o : RObs) := o.log.map (·.p)
+  let itemsOf (l : List PSpec) (rid : String) := showItems (l.flatMap fun p => contrib p ev rid)
+  if names warm != healthy.map (·.name) || warm.res.err != "" || warm.res.items != itemsOf healthy "warm." then
+    return { agree := false, spec := true, cover := "warmup-failed" :: cov0,
+             why := s!"{where_}: warm-up request not clean: {names warm} {warm.res.err} {warm.res.items}" }
+  -- a handshake that was not disturbed activates the plugin; a disturbed one must leave no trace
+  let undisturbed := kind == "hs-none" || (kind == "hs-cut" && !fired)
+  let okCall (s : PSpec) (rid : String) : Call C06.Items := { out := .ok (contrib s ev rid), reached := true, cost := 0 }
+  let run (ps : List Plugin) (rid : String) : Expect :=
+    let (res, tr, after) := request merger T ev (ps.map fun p => (p, okCall (C06.specOf spAll p.id) rid))
+    let handled := tr.handled.map (U ·.name)
+    match res with
+    | .ok items => { handled, err := "", items, isNil := !hasReply ev, after }
+    | .error _ => { handled, err := "error", items := [], isNil := true, after }
+  let ps0 : List Plugin := healthy.foldl (fun ps s => activate ps (mkPlugin s)) []
+  let ps1 := if undisturbed then activate ps0 (mkPlugin (C06.specOf sp pos)) else ps0
+  let e1 := run ps1 "fault"
+  let ps2 := activate e1.after (mkPlugin late)
+  let e2 := run ps2 "next."
+  let dis := cmp "request after the handshake" e1 flt <|> cmp "request after a later registration" e2 nxt
+  -- ---- the property on the observation
+  let bad (sig why : String) : Option (String × String) := some (sig, s!"{where_}: {why}")
+  let bound := n * T + slack
+  let alive := if undisturbed then sp else healthy
+  let mut spf : Option (String × String) := none
+  if undisturbed && !activated then
+    spf := spf <|> bad s!"{tag}:not-activated" "a plugin whose handshake was clean was not activated"
+  if flt.wall > bound then
+    spf := spf <|> bad s!"{tag}:too-slow" s!"the request took {flt.wall} ms (bound {n}×{T}+{slack})"
+  if nxt.wall > bound then
+    spf := spf <|> bad s!"{tag}:next-too-slow" s!"the following request took {nxt.wall} ms"
+  if flt.res.err != "" then
+    spf := spf <|> bad s!"{tag}:request-failed:{flt.res.err}" s!"the request failed: {flt.res.errtext}"
+  else
+    if !undisturbed && (names flt).contains me then
+      spf := spf <|> bad s!"{tag}:invoked" s!"the plugin whose handshake failed was invoked: {names flt}"
+    if names flt != alive.map (·.name) then
+      spf := spf <|> bad s!"{tag}:invocations" s!"invoked {names flt}, expected {alive.map (·.name)}"
+    if flt.res.items != itemsOf alive "fault" then
+      spf := spf <|> bad s!"{tag}:contributions" s!"reply {flt.res.items}, expected {itemsOf alive "fault"}"
+  if lateErr != "" then
+    spf := spf <|> bad s!"{tag}:later-plugin-stuck" s!"a plugin that connected after the failed handshake was not activated: {lateErr}"
+  if nxt.res.err != "" then
+    spf := spf <|> bad s!"{tag}:next-failed:{nxt.res.err}" s!"the following request failed: {nxt.res.errtext}"
+  else
+    let idxOfName (nm : String) : Nat := (spAll.find? (·.name == nm)).map (fun s => C06.idxNum s.idx) |>.getD 999
+    if names nxt != (alive ++ [late]).map (·.name) then
+      spf := spf <|> bad s!"{tag}:next-invocations" s!"following request invoked {names nxt}, expected {(alive ++ [late]).map (·.name)}"
+    if !(C06.dupFree (names nxt) && C06.nondecreasing ((names nxt).map idxOfName)) then
+      spf := spf <|> bad s!"{tag}:order" s!"invocations {names nxt}"
+    if nxt.res.items != itemsOf (alive ++ [late]) "next." then
+      spf := spf <|> bad s!"{tag}:next-contributions" s!"following reply {nxt.res.items}"
+  pure { agree := dis.isNone, spec := spf.isNone,
+         why := match spf, dis with
+           | some (_, w), _ => w
+           | none, some w => s!"{where_}: {w}"
+           | none, none => "",
+         sig := match spf with | some (s, _) => "C07:" ++ s | none => "",
+         cover := cov0 ++ [if undisturbed then "handshake:clean" else "handshake:failed", if fired then "fired" else "not-fired",
+                           s!"retries:{getNatD obs "retries"}"] ++
+                  (if kind == "hs-none" then [s!"handshake:bytes:r2p={getNatD obs "r2p"}:p2r={getNatD obs "p2r"}"] else []),
+         nontrivial := !undisturbed,
+         model := Json.mkObj [("handled", Json.arr (e1.handled.map Json.str).toArray)] }
+
 def judgeCalib (inp obs : Json) : Except String Verdict := do
   let fail := getStrD obs "fail"
   let ev ← getNat inp "ev"
@@ -394,6 +490,7 @@ def judge (j : Json) : Except String Verdict := do
   | "fault" => judgeFault inp obs
   | "calib" => judgeCalib inp obs
   | "multi" => judgeMulti inp obs
+  | "handshake" => judgeHandshake inp obs
   | k => throw s!"unknown case kind {k}"
 
 def main : IO UInt32 := runLines judge
